@@ -243,6 +243,46 @@ Proof.
       unfold grow_ok in Hg. destruct (vbk vv); cbn [fixed_backend] in Fx; contradiction.
 Qed.
 
+(** ... and for a value that is CLONED into place (a lazy clone): one Clone call, made after the capacity check *)
+Lemma raw_action_clone_spec c vv a u idx bs t0 k :
+  cfg_wf c -> VI c vv a -> dec (szn c) bs = Some t0 -> ufuse u = None -> can_take c vv 1 ->
+  let n := tok c (unext u) in
+  match put_value c a idx n with
+  | inl xs' => exists v' u', raw_action c idx (VClone bs k) (vv, u) = Ok tt (v', u') /\
+                 VI c v' (with_xs a xs') /\ unext u' = unext u + 1 /\ ufuse u' = None /\
+                 uevents u' = EClone t0 n :: uevents u
+  | inr p => raw_action c idx (VClone bs k) (vv, u) = Panic p (vv, u)
+  end.
+Proof.
+  intros Hwf HV Hd Hf Hc n. assert (HV' := HV). destruct HV' as [HR Hbk Hbwf Hcap Hfits].
+  pose proof (rep_len _ _ _ HR) as Hlen. pose proof (rep_cap _ _ _ HR) as Hle.
+  assert (Hroom_of : full c a = false -> vlen vv < vcap vv \/ grow_ok c vv (vcap vv + 1)).
+  { intros Hfl. exact (vi_full_false c vv a HV Hfl Hc). }
+  assert (Hfx_of : forall (Hroom : vlen vv < vcap vv \/ grow_ok c vv (vcap vv + 1)), fixed_backend (vbk vv) -> vlen vv < vcap vv).
+  { intros Hroom Fx. destruct Hroom as [Hlt|Hg]; [exact Hlt|].
+    unfold grow_ok in Hg. destruct (vbk vv); cbn [fixed_backend] in Fx; contradiction. }
+  unfold put_value, raw_action. destruct idx as [i|].
+  - destruct (N.ltb_spec (N.of_nat (length (a_xs a))) i) as [Hoob|Hin].
+    + apply (insert_oob c vv u (a_xs a)); assumption.
+    + destruct (full c a) eqn:Hfl.
+      * destruct (vi_full_true c vv a HV Hfl) as [He Hfx].
+        apply (insert_full_fixed c vv u (a_xs a)); auto. lia.
+      * pose proof (Hroom_of eq_refl) as Hroom.
+        assert (Hi : (N.to_nat i <= length (a_xs a))%nat) by lia.
+        destruct (insert_clone_ok c vv u (a_xs a) bs t0 k (N.to_nat i) Hwf HR Hd Hf Hi Hroom)
+          as (v' & u' & E & HR' & Hbk' & Hn' & Hf' & He' & Hpres).
+        rewrite N2Nat.id in E. exists v', u'. split; [exact E|].
+        split; [apply (vi_after_add c vv a v'); auto|]. auto.
+  - destruct (full c a) eqn:Hfl.
+    + destruct (vi_full_true c vv a HV Hfl) as [He Hfx].
+      apply (push_full_fixed c vv u (a_xs a)); auto.
+    + pose proof (Hroom_of eq_refl) as Hroom.
+      destruct (push_clone_ok c vv u (a_xs a) bs t0 k Hwf HR Hd Hf Hroom)
+        as (v' & u' & E & HR' & Hbk' & Hn' & Hf' & He' & Hpres).
+      exists v', u'. split; [exact E|].
+      split; [apply (vi_after_add c vv a v'); auto|]. auto.
+Qed.
+
 Lemma offer_fresh c w st vid a o idx t k :
   cfg_wf c -> WRep c w st -> get_a vid st = Some a -> ufuse (wuw w) = None ->
   f_ty o = c_ty c -> f_src o = VBytes (enc (szn c) t) k ->
@@ -307,6 +347,35 @@ Fixpoint sink_dsts (sk : sink) : list nat :=
 (** the allocator can serve one more element of vector [vid] (or its capacity is fixed) *)
 Definition adm_vec (c : cfg) (w : world) (vid : nat) : Prop :=
   forall vv, get_vec vid w = Some vv -> can_take c vv 1.
+(** ... several more: each of up to [m] pushes into a vector of a resizable backend may have to grow it (doubling
+    on the heap); a bound that covers every capacity such a run can pass through *)
+Definition roomy (c : cfg) (vv : vec) (m : N) : Prop :=
+  fixed_backend (vbk vv) \/
+  (resizable_backend (vbk vv) /\ 2 * (vlen vv + m) + 2 <= usize_max /\ c_sz c * (2 * (vlen vv + m) + 2) <= alloc_limit).
+(** how many values a (nested) sink moves into vector [d] *)
+Fixpoint sink_count (sk : sink) (d : nat) : N :=
+  match sk with
+  | KPush d' | KIns d' _ => if Nat.eqb d' d then 1 else 0
+  | KMut k | KLazyDown _ k => sink_count k d
+  | KLazy n d' k => (if Nat.eqb d' d then n else 0) + sink_count k d
+  | _ => 0
+  end.
+Definition adm_many (c : cfg) (w : world) (d : nat) (m : N) : Prop :=
+  forall vv, get_vec d w = Some vv -> (1 <= m -> can_take c vv 1) /\ (2 <= m -> roomy c vv m).
+Lemma adm_many_vec c w d m : 1 <= m -> adm_many c w d m -> adm_vec c w d.
+Proof. intros Hm H vv Hg. exact (proj1 (H vv Hg) Hm). Qed.
+Lemma adm_vec_many1 c w d : adm_vec c w d -> adm_many c w d 1.
+Proof. intros H vv Hg. split; [intros _; exact (H vv Hg)|]. intros; lia. Qed.
+(** the sinks without a sink inside: at most one move *)
+Lemma base_sink_adm c w vid sk :
+  match sk with KMut _ | KLazy _ _ _ | KLazyDown _ _ => False | _ => True end ->
+  (forall d, In d (sink_dsts sk) -> d <> vid -> adm_many c w d (sink_count sk d)) ->
+  forall d, In d (sink_dsts sk) -> d <> vid -> adm_vec c w d.
+Proof.
+  intros Hb H d Hin Hne. specialize (H d Hin Hne).
+  destruct sk; cbn [sink_dsts sink_count In] in *; try contradiction;
+    (destruct Hin as [<-|[]]; rewrite Nat.eqb_refl in H; apply (adm_many_vec c w _ 1); [lia|exact H]).
+Qed.
 (** a growth request of [n] more elements can be served (or needs no allocation / is refused by the checks) *)
 Definition adm_reserve (c : cfg) (w : world) (vid : nat) (n : N) : Prop :=
   forall vv, get_vec vid w = Some vv ->
@@ -343,7 +412,7 @@ Definition admissible (c : cfg) (w : world) (o : op) : Prop :=
   | OSpareWrite _ v k => forall vv, get_vec v w = Some vv -> vlen vv + k <= vcap vv
   | OWithCapacity _ bk n => adm_withcap c bk n
   | OPush _ v _ | OInsert _ v _ _ => adm_vec c w v
-  | OPop _ _ k | ORemove _ _ _ k | OSwapRemove _ _ _ k => forall d, In d (sink_dsts k) -> adm_vec c w d
+  | OPop _ _ k | ORemove _ _ _ k | OSwapRemove _ _ _ k => forall d, In d (sink_dsts k) -> adm_many c w d (sink_count k d)
   | ONew _ bk | OCloneEmptyIn _ _ bk => bk_wf bk
   | OClone v _ => adm_clone c w v
   | OReserve v n | OReserveExact v n => adm_reserve c w v n
@@ -818,12 +887,28 @@ Proof.
   | context [if ?x then _ else _] => destruct x eqn:?
   end; reflexivity.
 Qed.
+Lemma sp_lazy_pushes_nx c t : forall n b nx b' evs nx' ok,
+  sp_lazy_pushes c b t nx n = (b', evs, nx', ok) -> nx <= nx' /\ nx' <= nx + N.of_nat n /\ a_bk b' = a_bk b.
+Proof.
+  induction n as [|n IH]; intros b nx b' evs nx' ok H; cbn [sp_lazy_pushes] in H.
+  - injection H as <- _ <- _. repeat split; lia.
+  - destruct (full c b); [injection H as <- _ <- _; repeat split; lia|].
+    destruct (sp_lazy_pushes c (with_xs b (sp_push (tok c nx) (a_xs b))) t (nx + 1) n) as [[[b1 e1] n1] o1] eqn:E.
+    injection H as <- _ <- _. destruct (IH _ _ _ _ _ _ E) as (H1 & H2 & H3). cbn [with_xs a_bk] in H3. repeat split; try lia. exact H3.
+Qed.
 Lemma sp_sink_nx c : forall sk st nx v a k i r, sp_sink c st nx v a k i sk = Some r -> nx <= s_nx r.
 Proof.
   induction sk as [| |d|d j| |sk' IH|n0 d0 sk' IH|n0 sk' IH|]; intros st nx v a k i r H; cbn [sp_sink] in H;
     try (apply sp_take_elem_nx in H; lia).
   - cbv zeta in H. destruct (sp_sink c _ (nx + 1) v _ k i sk') as [r'|] eqn:E; [|discriminate].
     apply IH in E. injection H as <-. cbn [s_nx]. lia.
+  - destruct (Nat.eqb d0 v); [discriminate|]. destruct (get_a d0 st) as [b|]; [|discriminate].
+    destruct (sp_lazy_pushes c b (nth i (a_xs a) 0) nx (N.to_nat n0)) as [[[b1 e1] n1] o1] eqn:E.
+    destruct (sp_lazy_pushes_nx c _ _ _ _ _ _ _ _ E) as (H1 & _).
+    destruct o1.
+    + destruct (sp_sink c _ n1 v a k i sk') as [r'|] eqn:E'; [|discriminate].
+      apply IH in E'. injection H as <-. cbn [s_nx]. lia.
+    + injection H as <-. cbn [panic_res s_nx]. lia.
   - cbv zeta in H. destruct (sp_sink c st (nx + n0) v a k i sk') as [r'|] eqn:E; [|discriminate].
     apply IH in E. injection H as <-. cbn [s_nx]. lia.
 Qed.
@@ -850,11 +935,146 @@ Proof.
     unfold uevents, lazy_step, drop_ev. cbn [ulog]. destruct (c_dg c); reflexivity.
 Qed.
 
+(** ** lazy clones of the held value pushed into another vector ([KLazy]) *)
+Lemma roomy_can_take c vv xs m : Rep c vv xs -> roomy c vv m -> can_take c vv 1.
+Proof.
+  intros HR [Hfx|(Hres & Hu & Hl)]; [right; right; exact Hfx|].
+  destruct (N.le_gt_cases (vlen vv + 1) (vcap vv)) as [Hle|Hgt]; [left; exact Hle|right; left].
+  pose proof (rep_cap _ _ _ HR) as Hc. assert (Hcap : vcap vv = vlen vv) by lia.
+  assert (Hb : c_sz c * (2 * vlen vv + 1) <= alloc_limit).
+  { eapply N.le_trans; [|exact Hl]. apply N.mul_le_mono_l. lia. }
+  unfold grow_ok, grow_target. destruct Hres as [Hb0|[c0 Hb0]]; rewrite Hb0.
+  - split; [lia|]. unfold saturating_mul. rewrite Hcap.
+    destruct (N.leb_spec (vlen vv * 2) usize_max) as [H1|H1]; [|lia].
+    eapply N.le_trans; [|exact Hb]. apply N.mul_le_mono_l. lia.
+  - split; [lia|]. eapply N.le_trans; [|exact Hb]. apply N.mul_le_mono_l. lia.
+Qed.
+Lemma roomy_pushed c vv vv' m : roomy c vv m -> 1 <= m -> vlen vv' = vlen vv + 1 -> vbk vv' = vbk vv -> roomy c vv' (m - 1).
+Proof.
+  intros [Hfx|(Hres & Hu & Hl)] Hm Hlen Hbk; [left; rewrite Hbk; exact Hfx|right].
+  rewrite Hbk, Hlen. replace (vlen vv + 1 + (m - 1)) with (vlen vv + m) by lia. auto.
+Qed.
+
+Lemma set_nth_id {A} (x d : A) : forall n l, nth_error l n = Some x -> set_nth n x d l = l.
+Proof.
+  induction n as [|n IH]; intros l H; destruct l as [|y l]; cbn [nth_error set_nth] in *; try discriminate.
+  - injection H as ->. reflexivity.
+  - f_equal. apply IH. exact H.
+Qed.
+Lemma put_vec_restore vid vv wl W :
+  get_vec vid W = Some wl -> put_vec vid (Some wl) (wuw W) (put_vec vid (Some vv) (wuw W) W) = W.
+Proof.
+  intros Hg. rewrite put_put_same. unfold put_vec. destruct W as [l u]. cbn [wv wuw]. f_equal.
+  apply set_nth_id. unfold get_vec in Hg. cbn [wv] in Hg.
+  destruct (nth_error l vid) as [[x|]|]; try discriminate. injection Hg as ->. reflexivity.
+Qed.
+Lemma sp_lazy_pushes_ok c t : forall n b nx b' evs nx',
+  sp_lazy_pushes c b t nx n = (b', evs, nx', true) -> nx' = nx + N.of_nat n.
+Proof.
+  induction n as [|n IH]; intros b nx b' evs nx' H; cbn [sp_lazy_pushes] in H.
+  - injection H as _ _ <-. lia.
+  - destruct (full c b); [discriminate|].
+    destruct (sp_lazy_pushes c (with_xs b (sp_push (tok c nx) (a_xs b))) t (nx + 1) n) as [[[b1 e1] n1] o1] eqn:E.
+    injection H as _ _ <- ->. rewrite (IH _ _ _ _ _ E). lia.
+Qed.
+
+Section LazyLoop.
+Variables (c : cfg) (vid dst : nat) (wl : vec) (t : N) (h : temp) (W0 : world).
+Hypothesis Hwf : cfg_wf c.
+Hypothesis Hne : dst <> vid.
+Hypothesis Htok : tok_ok (szn c) t.
+Hypothesis Hbytes : forall u, temp_bytes c h (wl, u) = Ok (enc (szn c) t) (wl, u).
+
+Record LoopInv (W : world) (ad : avec) (vd : vec) : Prop := {
+  li_v : get_vec vid W = Some wl;
+  li_d : get_vec dst W = Some vd;
+  li_vi : VI c vd ad;
+  li_o : forall k, k <> vid -> k <> dst -> slot k (wv W) = slot k (wv W0);
+  li_f : ufuse (wuw W) = None
+}.
+
+Definition lazy_body : M world unit :=
+  do bs <- on_vec vid (temp_bytes c h);
+  offer_into c dst {| f_ty := c_ty c; f_src := VClone bs false; f_checked := true; f_drop := DNone |} (push_unchecked c).
+
+Lemma lazy_push_loop : forall n W ad vd m,
+  LoopInv W ad vd -> (1 <= m -> can_take c vd 1) -> (2 <= m -> roomy c vd m) -> N.of_nat n <= m ->
+  exists W' vd',
+    LoopInv W' (fst (fst (fst (sp_lazy_pushes c ad t (unext (wuw W)) n)))) vd' /\
+    unext (wuw W') = snd (fst (sp_lazy_pushes c ad t (unext (wuw W)) n)) /\
+    uevents (wuw W') = rev (snd (fst (fst (sp_lazy_pushes c ad t (unext (wuw W)) n)))) ++ uevents (wuw W) /\
+    (let pushed := snd (fst (sp_lazy_pushes c ad t (unext (wuw W)) n)) - unext (wuw W) in
+     (1 <= m - pushed -> can_take c vd' 1) /\ (2 <= m - pushed -> roomy c vd' (m - pushed))) /\
+    repeat_m n lazy_body W = (if snd (sp_lazy_pushes c ad t (unext (wuw W)) n) then Ok tt W' else Panic PCapacity W').
+Proof.
+  induction n as [|n IH]; intros W ad vd m HI Hc1 Hc2 Hnm.
+  - exists W, vd. cbn [sp_lazy_pushes fst snd repeat_m rev app]. rewrite N.sub_diag, N.sub_0_r.
+    split; [exact HI|]. split; [reflexivity|]. split; [reflexivity|]. split; [split; assumption|reflexivity].
+  - destruct HI as [Hv Hd HV Ho Hf].
+    cbn [repeat_m sp_lazy_pushes].
+    (* the bytes of the held value *)
+    assert (E1 : on_vec vid (temp_bytes c h) W = Ok (enc (szn c) t) (put_vec vid (Some wl) (wuw W) W))
+      by (apply (on_vec_ok vid _ W wl _ wl (wuw W) Hv (Hbytes (wuw W)))).
+    set (W1 := put_vec vid (Some wl) (wuw W) W).
+    assert (Hd1 : get_vec dst W1 = Some vd) by (unfold W1; rewrite get_vec_put_other' by exact Hne; exact Hd).
+    assert (Hv1 : forall ov u, get_vec vid (put_vec dst ov u W1) = Some wl).
+    { intros ov u. rewrite get_vec_put_other' by congruence. unfold W1. apply get_vec_put_same. }
+    assert (Ho1 : forall ov u k, k <> vid -> k <> dst -> slot k (wv (put_vec dst ov u W1)) = slot k (wv W0)).
+    { intros ov u k Hk1 Hk2. unfold W1, put_vec. cbn [wv]. rewrite !slot_set_nth.
+      destruct (Nat.eqb_spec k dst); [contradiction|]. destruct (Nat.eqb_spec k vid); [contradiction|]. apply Ho; assumption. }
+    set (o := {| f_ty := c_ty c; f_src := VClone (enc (szn c) t) false; f_checked := true; f_drop := DNone |}).
+    pose proof (raw_action_clone_spec c vd ad (wuw W1) None (enc (szn c) t) t false Hwf HV (dec_enc _ _ Htok) Hf (Hc1 ltac:(lia))) as Hspec.
+    cbv zeta in Hspec. unfold put_value in Hspec. unfold raw_action in Hspec.
+    assert (Hnx1 : unext (wuw W1) = unext (wuw W)) by reflexivity. rewrite Hnx1 in Hspec.
+    unfold lazy_body at 1. unfold bind at 1. unfold bind at 1. rewrite E1. fold W1. fold o.
+    unfold offer_into, unwinding.
+    destruct (full c ad) eqn:Hfull.
+    + (* the push is refused *)
+      exists (put_vec dst (Some vd) (wuw W1) W1), vd. cbn [fst snd rev app]. rewrite N.sub_diag, N.sub_0_r.
+      split; [constructor; [apply Hv1|apply get_vec_put_same|exact HV|apply Ho1|rewrite wuw_put; exact Hf]|].
+      split; [reflexivity|]. split; [reflexivity|]. split; [split; assumption|].
+      unfold bind at 1. unfold on_unwind. rewrite offer_check_pass by reflexivity.
+      cbn [f_src o]. rewrite (on_vec_panic dst _ W1 vd PCapacity vd (wuw W1) Hd1 Hspec).
+      assert (Hfp : ufuse (wuw (put_vec dst (Some vd) (wuw W1) W1)) = None) by (rewrite wuw_put; exact Hf).
+      rewrite (quiet_none (drop_offer c o) _ tt _ Hfp eq_refl Hfp). reflexivity.
+    + destruct Hspec as (v' & u' & E & HV' & Hn' & Hf' & He').
+      set (W2 := put_vec dst (Some v') u' W1).
+      assert (Estep : (do _ <- on_unwind ((if f_checked o then assert_ (f_ty o =? c_ty c) PType else ret tt);;
+                                          on_vec dst (push_unchecked c (f_src o))) (quiet (drop_offer c o));
+                       finish_offer c o) W1 = Ok tt W2).
+      { unfold bind at 1. unfold on_unwind. rewrite offer_check_pass by reflexivity. cbn [f_src o].
+        rewrite (on_vec_ok dst _ W1 vd tt v' u' Hd1 E). reflexivity. }
+      set (ad1 := with_xs ad (sp_push (tok c (unext (wuw W))) (a_xs ad))) in *.
+      assert (HI2 : LoopInv W2 ad1 v').
+      { constructor; [apply Hv1|apply get_vec_put_same|exact HV'|apply Ho1|unfold W2; rewrite wuw_put; exact Hf']. }
+      assert (Hlen' : vlen v' = vlen vd + 1).
+      { rewrite (rep_len _ _ _ (vi_rep _ _ _ HV')), (rep_len _ _ _ (vi_rep _ _ _ HV)). cbn [ad1 with_xs a_xs]. unfold sp_push.
+        rewrite app_length. cbn [length]. lia. }
+      assert (Hbk' : vbk v' = vbk vd) by (rewrite (vi_bk _ _ _ HV'), (vi_bk _ _ _ HV); reflexivity).
+      assert (Hm1 : 1 <= m) by lia.
+      assert (Hc2' : 2 <= m - 1 -> roomy c v' (m - 1)).
+      { intros H2. apply (roomy_pushed c vd v' m); auto. apply Hc2. lia. }
+      assert (Hc1' : 1 <= m - 1 -> can_take c v' 1).
+      { intros H1. apply (roomy_can_take c v' _ (m - 1) (vi_rep _ _ _ HV')). apply (roomy_pushed c vd v' m); auto. apply Hc2. lia. }
+      assert (Hnx2 : unext (wuw W2) = unext (wuw W) + 1) by (unfold W2; rewrite wuw_put; exact Hn').
+      destruct (IH W2 ad1 v' (m - 1) HI2 Hc1' Hc2' ltac:(lia)) as (W' & vd' & HI' & Hnx' & Hev' & Hadm' & Erun).
+      rewrite Hnx2 in *.
+      destruct (sp_lazy_pushes c ad1 t (unext (wuw W) + 1) n) as [[[b1 e1] n1] o1] eqn:Esp.
+      cbn [fst snd] in *.
+      exists W', vd'. split; [exact HI'|]. split; [exact Hnx'|]. split.
+      { rewrite Hev'. unfold W2. rewrite wuw_put, He'. cbn [rev]. rewrite <- app_assoc. reflexivity. }
+      split.
+      { destruct (sp_lazy_pushes_nx c t n ad1 (unext (wuw W) + 1) b1 e1 n1 o1 Esp) as (Hge & _).
+        replace (m - (n1 - unext (wuw W))) with (m - 1 - (n1 - (unext (wuw W) + 1))) by lia. exact Hadm'. }
+      rewrite Estep. exact Erun.
+Qed.
+End LazyLoop.
+
 (** ... and the sinks that first use the handle (write through it, downcast lazy clones of it) *)
 Lemma sink_spec c a : forall sk w st vid av k i vv h r,
   cfg_wf c -> WRep c w st -> get_a vid st = Some av -> temp_req k i (a_xs av) ->
   get_vec vid w = Some vv -> VI c vv av -> temp_for c vv (a_xs av) k i h -> ufuse (wuw w) = None ->
-  (forall d, In d (sink_dsts sk) -> d <> vid -> adm_vec c w d) ->
+  (forall d, In d (sink_dsts sk) -> d <> vid -> adm_many c w d (sink_count sk d)) ->
   sp_sink c st (unext (wuw w)) vid av k i sk = Some r ->
   match apply_sink c vid (known_of a) h sk (put_vec vid (Some (with_len (N.of_nat i) vv)) (wuw w) w) with
   | Ok rets w2 => s_out r = 0 /\ s_pk r = 0 /\ s_ret r = rets /\
@@ -866,7 +1086,10 @@ Lemma sink_spec c a : forall sk w st vid av k i vv h r,
 Proof.
   induction sk as [| |d|d j| |sk' IH|n0 d0 sk' IH|n0 sk' IH|];
     intros w st vid av k i vv h r Hwf HW Hg Hreq Hgv HV Hfor Hfuse Hadm Hr;
-    try (cbn [sp_sink] in Hr; exact (sink_base c w st a vid av k i vv h _ r Hwf HW Hg Hreq Hgv HV Hfor Hfuse Hadm Hr)).
+    try (cbn [sp_sink] in Hr;
+         match goal with |- context [apply_sink _ _ _ _ ?sk0 _] =>
+           exact (sink_base c w st a vid av k i vv h sk0 r Hwf HW Hg Hreq Hgv HV Hfor Hfuse
+                            (base_sink_adm c w vid sk0 I Hadm) Hr) end).
   - (* KMut: a new value is written through the handle first *)
     cbn [sp_sink] in Hr. cbv zeta in Hr.
     set (xs := a_xs av) in *. set (t := nth i xs 0) in *.
@@ -927,7 +1150,7 @@ Proof.
     { unfold w'. rewrite wuw_put. unfold u2, u1, w1. destruct (c_dg c); cbn [emit ufuse wuw put_vec]; exact Hfuse. }
     assert (Hnx' : unext (wuw w') = unext (wuw w) + 1).
     { unfold w'. rewrite wuw_put. unfold u2, u1, w1. destruct (c_dg c); cbn [emit unext wuw put_vec]; reflexivity. }
-    assert (Hadm' : forall d, In d (sink_dsts sk') -> d <> vid -> adm_vec c w' d).
+    assert (Hadm' : forall d, In d (sink_dsts sk') -> d <> vid -> adm_many c w' d (sink_count sk' d)).
     { intros d Hin Hne vd Hgd. apply (Hadm d Hin Hne). unfold w' in Hgd. rewrite get_vec_put_other' in Hgd by exact Hne. exact Hgd. }
     rewrite <- Hnx' in Er'.
     pose proof (IH w' st' vid av' k i vv' h r' Hwf HW' Hg' Hreq' Hgv' HV' Hfor' Hfuse' Hadm' Er') as Hrest.
@@ -944,6 +1167,94 @@ Proof.
       replace (s_nx r' - unext (wuw w)) with (1 + (s_nx r' - unext (wuw w'))) by
         (pose proof (sp_sink_nx _ _ _ _ _ _ _ _ _ Er'); lia);
       exact (step_ok_trans c w w' w2 st' (s_st r') (drop_ev c t) (s_evs r') 1 _ Hstep Hso).
+  - (* KLazy: lazy clones of the held value are pushed into another vector first *)
+    cbn [sp_sink] in Hr.
+    destruct (Nat.eqb_spec d0 vid) as [|Hne]; [discriminate|].
+    destruct (get_a d0 st) as [ad|] eqn:Hgd; [|discriminate].
+    destruct (wrep_get c w st d0 ad HW Hgd) as (vd & Hgvd & HVd).
+    set (xs := a_xs av) in *. set (t := nth i xs 0) in *.
+    pose proof (vi_rep _ _ _ HV) as HR. fold xs in HR.
+    assert (Hi : (i < length xs)%nat) by (apply Hreq).
+    assert (Ht : tok_ok (szn c) t).
+    { pose proof (rep_tok _ _ _ HR) as Ht. rewrite Forall_forall in Ht. apply Ht. apply nth_In. exact Hi. }
+    set (wl := with_len (N.of_nat i) vv).
+    set (w1 := put_vec vid (Some wl) (wuw w) w).
+    assert (Hbytes : forall u, temp_bytes c h (wl, u) = Ok (enc (szn c) t) (wl, u)).
+    { intros u. exact (temp_bytes_spec c vv u xs k i h HR Hreq Hfor). }
+    assert (HI : LoopInv c vid d0 wl w w1 ad vd).
+    { constructor.
+      - apply get_vec_put_same.
+      - unfold w1. rewrite get_vec_put_other' by exact Hne. exact Hgvd.
+      - exact HVd.
+      - intros j Hj _. unfold w1, put_vec. cbn [wv]. rewrite slot_set_nth. destruct (Nat.eqb_spec j vid); [contradiction|reflexivity].
+      - exact Hfuse. }
+    set (m := n0 + sink_count sk' d0).
+    assert (Hm : adm_many c w d0 m).
+    { pose proof (Hadm d0 (or_introl eq_refl) Hne) as H. cbn [sink_count] in H. rewrite Nat.eqb_refl in H. exact H. }
+    destruct (Hm vd Hgvd) as [Hc1 Hc2].
+    destruct (lazy_push_loop c vid d0 wl t h w Hwf Hne Ht Hbytes (N.to_nat n0) w1 ad vd m HI Hc1 Hc2 ltac:(unfold m; lia))
+      as (W' & vd' & HI' & Hnx' & Hev' & Hadm' & Erun).
+    assert (Hnx1 : unext (wuw w1) = unext (wuw w)) by reflexivity. rewrite Hnx1 in *.
+    destruct (sp_lazy_pushes c ad t (unext (wuw w)) (N.to_nat n0)) as [[[ad' evs] nx'] ok] eqn:Esp.
+    cbn [fst snd] in *.
+    destruct (sp_lazy_pushes_nx c t _ _ _ _ _ _ _ Esp) as (Hge & _ & Hbk').
+    destruct HI' as [Hv' Hd' HVd' Ho' Hf'].
+    set (st1 := set_a d0 (Some ad') st) in *.
+    set (w' := put_vec vid (Some vv) (wuw W') W').
+    assert (EW' : put_vec vid (Some wl) (wuw w') w' = W') by (unfold w'; rewrite wuw_put; apply put_vec_restore; exact Hv').
+    assert (HW' : WRep c w' st1).
+    { intros j. unfold w', st1, put_vec, set_a. cbn [wv]. rewrite !slot_set_nth.
+      destruct (Nat.eqb_spec j vid) as [->|Hj1].
+      - destruct (Nat.eqb_spec vid d0); [congruence|]. rewrite <- get_a_slot, Hg. exact HV.
+      - destruct (Nat.eqb_spec j d0) as [->|Hj2].
+        + rewrite <- get_vec_slot, Hd'. exact HVd'.
+        + rewrite (Ho' j Hj1 Hj2). apply HW. }
+    assert (Hg' : get_a vid st1 = Some av).
+    { unfold st1. rewrite get_a_slot. unfold set_a. rewrite slot_set_nth. destruct (Nat.eqb_spec vid d0); [congruence|].
+      rewrite <- get_a_slot. exact Hg. }
+    assert (Hgv' : get_vec vid w' = Some vv) by apply get_vec_put_same.
+    assert (Hfuse' : ufuse (wuw w') = None) by (unfold w'; rewrite wuw_put; exact Hf').
+    assert (Hstep : step_ok c w w' st1 evs (nx' - unext (wuw w))).
+    { constructor; [exact HW'| unfold w'; rewrite wuw_put, Hnx'; lia |exact Hfuse'|unfold w'; rewrite wuw_put; exact Hev']. }
+    cbn [apply_sink]. fold wl. fold w1.
+    change (do bs <- on_vec vid (temp_bytes c h);
+            offer_into c d0 {| f_ty := c_ty c; f_src := VClone bs false; f_checked := true; f_drop := DNone |} (push_unchecked c))
+      with (lazy_body c vid d0 h).
+    unfold bind at 1. unfold unwinding, on_unwind. rewrite Erun.
+    destruct ok.
+    + (* all clones went in: the rest of the sink, from the world in which the other vector has grown *)
+      destruct (sp_sink c st1 nx' vid av k i sk') as [r'|] eqn:Er'; [|discriminate]. injection Hr as <-.
+      pose proof (sp_lazy_pushes_ok c t _ _ _ _ _ _ Esp) as Enx.
+      assert (Hadm2 : forall d, In d (sink_dsts sk') -> d <> vid -> adm_many c w' d (sink_count sk' d)).
+      { intros d Hin Hnd vx Hgx. unfold w' in Hgx. rewrite get_vec_put_other' in Hgx by exact Hnd.
+        destruct (Nat.eq_dec d d0) as [->|Hd0].
+        - rewrite Hd' in Hgx. injection Hgx as <-.
+          replace (sink_count sk' d0) with (m - (nx' - unext (wuw w))) by (unfold m; lia). exact Hadm'.
+        - pose proof (Hadm d (or_intror Hin) Hnd) as H. cbn [sink_count] in H.
+          destruct (Nat.eqb_spec d0 d); [congruence|]. rewrite N.add_0_l in H.
+          apply H. rewrite !get_vec_slot in *. rewrite <- (Ho' d Hnd Hd0). exact Hgx. }
+      assert (Er2 : sp_sink c st1 (unext (wuw w')) vid av k i sk' = Some r') by (unfold w'; rewrite wuw_put, Hnx'; exact Er').
+      pose proof (IH w' st1 vid av k i vv h r' Hwf HW' Hg' Hreq Hgv' HV Hfor Hfuse' Hadm2 Er2) as Hrest.
+      fold wl in Hrest. rewrite EW' in Hrest. revert Hrest.
+      destruct (apply_sink c vid (known_of a) h sk' W') as [rets w2|p w2|f];
+        intros Hrest; [| |exact Hrest]; destruct Hrest as (Ho & Hp & Hrt & Hso);
+        cbn [s_out s_pk s_ret s_st s_evs s_nx];
+        (split; [exact Ho|split; [exact Hp|split; [exact Hrt|]]]);
+        replace (s_nx r' - unext (wuw w)) with ((nx' - unext (wuw w)) + (s_nx r' - unext (wuw w'))) by
+          (pose proof (sp_sink_nx _ _ _ _ _ _ _ _ _ Er'); unfold w'; rewrite wuw_put, Hnx'; lia);
+        exact (step_ok_trans c w w' w2 st1 (s_st r') evs (s_evs r') _ _ Hstep Hso).
+    + (* a push was refused: the unwinding drops the handle *)
+      injection Hr as <-.
+      destruct (sink_drop c w' st1 vid av k i vv h HW' Hreq HV Hfor Hfuse' (known_of a)) as (w2 & E2 & Hso).
+      fold wl in E2. rewrite EW' in E2. cbn [apply_sink] in E2. unfold bind in E2.
+      destruct (on_vec vid (temp_drop c (known_of a) h) W') as [u0 wq|p wq|f] eqn:Ed; try discriminate.
+      unfold ret in E2. injection E2 as <-. destruct u0.
+      assert (Hfq : ufuse (wuw wq) = None) by (apply (so_fuse _ _ _ _ _ _ Hso)).
+      rewrite (quiet_none (on_vec vid (temp_drop c (known_of a) h)) W' tt wq Hf' Ed Hfq).
+      cbn [panic_res s_out s_pk s_ret s_st s_evs s_nx].
+      split; [reflexivity|split; [reflexivity|split; [reflexivity|]]].
+      replace (nx' - unext (wuw w)) with ((nx' - unext (wuw w)) + 0) by lia.
+      exact (step_ok_trans c w w' wq st1 _ evs (drop_ev c t) _ _ Hstep Hso).
   - (* KLazyDown: lazy clones of the held value are downcast first *)
     cbn [sp_sink] in Hr. cbv zeta in Hr.
     set (xs := a_xs av) in *. set (t := nth i xs 0) in *.
@@ -989,7 +1300,7 @@ Proof.
     assert (Hgv' : get_vec vid w' = Some vv) by (apply get_vec_put_same).
     assert (Hfuse' : ufuse (wuw w') = None) by (unfold w'; rewrite wuw_put, Hf1; exact Hfuse).
     assert (Hnx' : unext (wuw w') = unext (wuw w) + n0) by (unfold w'; rewrite wuw_put, Hn1; unfold cnt; lia).
-    assert (Hadm' : forall d, In d (sink_dsts sk') -> d <> vid -> adm_vec c w' d).
+    assert (Hadm' : forall d, In d (sink_dsts sk') -> d <> vid -> adm_many c w' d (sink_count sk' d)).
     { intros d Hin Hne vd Hgd. apply (Hadm d Hin Hne). unfold w' in Hgd. rewrite get_vec_put_other' in Hgd by exact Hne. exact Hgd. }
     rewrite <- Hnx' in Er'.
     pose proof (IH w' st vid av k i vv h r' Hwf HW' Hg Hreq Hgv' HV Hfor Hfuse' Hadm' Er') as Hrest.
@@ -1008,7 +1319,7 @@ Qed.
 Lemma exec_take c w st a vid k idx sk r :
   cfg_wf c -> WRep c w st -> ufuse (wuw w) = None ->
   (k = TPop -> idx = 0) ->
-  (forall d, In d (sink_dsts sk) -> adm_vec c w d) ->
+  (forall d, In d (sink_dsts sk) -> adm_many c w d (sink_count sk d)) ->
   sp_take c st (unext (wuw w)) vid k idx sk = Some r ->
   res_matches c w (take_prog c a vid k idx sk w) r.
 Proof.
